@@ -140,6 +140,9 @@ def r_driver(root):
         il = imported.own.get("_tx_reference_resolver")
     # ---- B: a model loaded from a string
     B = scenario(file_name=None)
+    cbs = [e for e in B["ev"] if e[0] == "callback"]
+    rep("C18", "C18.k", "a model loaded from a string is marked as under construction like any other", B["k"] == "ret" and len(cbs) == 1 and cbs[0][2] is True and kinds(B["ev"]) == want,
+        "loading a model from a string (no file name) runs  %s  and the pre-resolution callback sees the model %s; documented: the same steps as for a file, the model carrying the construction mark, its (absent) file name and its meta-model when the callback runs (a failure while its imports are loaded must find it)" % (show(B["ev"]), "marked" if cbs and cbs[0][2] is True else "without the construction mark / file name / meta-model"))
     rep("C06", "C06.g", "a model loaded from a string has no file name", B["k"] == "ret" and isinstance(B["model"], pyeval.InstObj) and "_tx_filename" in B["model"].own and B["model"].own["_tx_filename"] is None,
         "a model loaded from a string gets _tx_filename=%r; documented None (the grammar's file is %r)" % (B["model"].own.get("_tx_filename", "unset") if isinstance(B["model"], pyeval.InstObj) else None, "grammar.tx"))
     # ---- without tool support nothing is published
